@@ -279,12 +279,23 @@ def observed(rc, out, err):
     return ("exit", o, "exit %d %s" % (rc, e[-300:]))
 
 
+TRAILING = [0]     # comparisons in which two error messages differed only by bytes after the message
+
+
 def same(a, b):
     """the property's equality: class; for defined behaviour also stdout, exit status and the error message"""
     if a[0] != b[0]:
         return False
     if a[0] in ("crash", "sanitizer", "nondeterministic"):
         return True
+    if a[0] == "err" and a[1] == b[1] and a[2] != b[2]:
+        # which error = its message; the compiler's own error format strings are not NUL-terminated (setupErrorStrings:
+        # constant.NewCharArrayFromString), so ddp_runtime_error prints whatever bytes follow them in the executable
+        # (e.g. "...Falsche TypumwandlungC.utf8"); that tail depends on the layout and is not part of the property
+        x, y = a[2].rstrip("\n"), b[2].rstrip("\n")
+        if x.startswith(y) or y.startswith(x):
+            TRAILING[0] += 1
+            return True
     return a[1] == b[1] and a[2] == b[2]
 
 
@@ -677,6 +688,147 @@ def src_arith(rng, n_out, n_in):
     return [arith_program(op, p, f, False) for (op, p, f) in cells_out[:n_out]] + [arith_program(op, p, f, True) for (op, p, f) in cells_in[:n_in]]
 
 
+# ---- a value parameter written through a Referenz callee that stands inside an argument of another call ------------------
+NESTED_TYPES = {
+    "T": dict(val="Text", ref="Text Referenz", decl="Der Text", lits=['"Hallo Welt"', '"abc"', '"ein etwas laengerer Text mit mehr als dreissig Zeichen"'],
+              writes=['Speichere "veraendert" in r.', 'Speichere r verkettet mit "+angehaengt und lang genug fuer einen neuen Puffer" in r.', "Speichere 'X' in r an der Stelle 1."]),
+    "ZL": dict(val="Zahlen Liste", ref="Zahlen Listen Referenz", decl="Die Zahlen Liste", lits=["eine Liste, die aus 1, 2, 3 besteht", "eine Liste, die aus 5 besteht", "eine Liste, die aus 4, 8, 15, 16, 23, 42, 4, 8, 15, 16, 23, 42 besteht"],
+               writes=["Speichere (eine Liste, die aus 9, 9 besteht) in r.", "Speichere r verkettet mit 77 in r.", "Speichere 42 in r an der Stelle 1.", "Füge 13 an r an."]),
+    "TL": dict(val="Text Liste", ref="Text Listen Referenz", decl="Die Text Liste", lits=['eine Liste, die aus "a", "b" besteht', 'eine Liste, die aus "eins", "zwei", "drei", "vier", "fuenf", "sechs", "sieben" besteht'],
+               writes=['Speichere (eine Liste, die aus "neu" besteht) in r.', 'Speichere r verkettet mit "hinten" in r.', 'Speichere "ersetzt" in r an der Stelle 1.', 'Füge "dran" an r an.']),
+}
+NESTED_FORMS = {
+    # how the Referenz call `ersetze p` is nested inside an argument of another call
+    "argument of a function": "Gib das Doppelte von (ersetze p) zurück.",
+    "argument of a Duden function": "Gib die größere Zahl von (ersetze p) und 0 zurück.",
+    "two levels deep": "Gib das Doppelte von (das Doppelte von (ersetze p)) zurück.",
+    "argument of a call statement": "Schreibe (das Doppelte von (ersetze p)) auf eine Zeile.\n\tGib 0 zurück.",
+    "second argument": "Gib die Summe von 1 und (ersetze p) zurück.",
+    "inside an operator inside an argument": "Gib das Doppelte von ((ersetze p) plus 1) zurück.",
+}
+NESTED_TEMPLATE = """Binde "Duden/Ausgabe" ein.
+Binde "Duden/Listen" ein.
+Binde "Duden/Mathe" ein.
+
+Die Funktion Ersetze mit dem Parameter r vom Typ %s, gibt eine Zahl zurück, macht:
+	%s
+	Gib %d zurück.
+Und kann so benutzt werden:
+	"ersetze <r>"
+
+Die Funktion Doppelt mit dem Parameter n vom Typ Zahl, gibt eine Zahl zurück, macht:
+	Gib n mal 2 zurück.
+Und kann so benutzt werden:
+	"das Doppelte von <n>"
+
+Die Funktion Summe mit den Parametern a und b vom Typ Zahl und Zahl, gibt eine Zahl zurück, macht:
+	Gib a plus b zurück.
+Und kann so benutzt werden:
+	"die Summe von <a> und <b>"
+
+Die Funktion Halte mit dem Parameter p vom Typ %s, gibt eine Zahl zurück, macht:
+	%s
+Und kann so benutzt werden:
+	"halte <p>"
+
+Die Funktion Haupt gibt nichts zurück, macht:
+	%s original ist %s.
+	%s zweites ist original.
+	Die Zahl n ist halte original.
+	Schreibe n auf eine Zeile.
+	Schreibe original auf eine Zeile.
+	Schreibe zweites auf eine Zeile.
+	Speichere (halte zweites) in n.
+	Schreibe zweites auf eine Zeile.
+Und kann so benutzt werden:
+	"führe den Test aus"
+
+führe den Test aus.
+Schreibe "ende" auf eine Zeile.
+"""
+
+
+def nested_call_program(rng, ty, form, write):
+    t = NESTED_TYPES[ty]
+    lit = rng.choice(t["lits"])
+    src = NESTED_TEMPLATE % (t["ref"], write, rng.randint(1, 9), t["val"], NESTED_FORMS[form], t["decl"], lit, t["decl"])
+    return Source("nested-call", {"prog.ddp": src}, "prog.ddp", meta=dict(ty=ty, form=form, write=write))
+
+
+def src_nested(rng, n):
+    cells = [(ty, f, w) for ty in NESTED_TYPES for f in NESTED_FORMS for w in NESTED_TYPES[ty]["writes"]]
+    rng.shuffle(cells)
+    if n < len(cells):
+        # every nesting form and every type before anything repeats
+        pick, forms, tys = [], set(), set()
+        for c in cells:
+            if c[1] not in forms or c[0] not in tys:
+                pick.append(c)
+                forms.add(c[1])
+                tys.add(c[0])
+        cells = pick + [c for c in cells if c not in pick]
+    return [nested_call_program(rng, *c) for c in cells[:n]]
+
+
+# ---- operations that must stop with a Laufzeitfehler although their result is never used ------------------------------------
+DEAD = {
+    # label: (parameter list, declaration of an unused local from the failing operation, (plain declaration, assignment form), good call, [bad calls])
+    "Text index": ("mit den Parametern t und i vom Typ Text und Zahl", "Der Buchstabe b ist t an der Stelle i.", ("Der Buchstabe b ist 'x'.", "Speichere (t an der Stelle i) in b."),
+                   '"abc" bei 2', ['"abc" bei 10', '"abc" bei 0', '"" bei 1', '"aeoe" bei -1']),
+    "Zahlen Liste index": ("mit den Parametern t und i vom Typ Zahlen Liste und Zahl", "Die Zahl b ist t an der Stelle i.", ("Die Zahl b ist 0.", "Speichere (t an der Stelle i) in b."),
+                           "(eine Liste, die aus 1, 2, 3 besteht) bei 2", ["(eine Liste, die aus 1, 2, 3 besteht) bei 4", "(eine Liste, die aus 1, 2, 3 besteht) bei 0", "(eine leere Zahlen Liste) bei 1"]),
+    "Text Liste index": ("mit den Parametern t und i vom Typ Text Liste und Zahl", "Der Text b ist t an der Stelle i.", ('Der Text b ist "".', "Speichere (t an der Stelle i) in b."),
+                         '(eine Liste, die aus "a", "b" besteht) bei 1', ['(eine Liste, die aus "a", "b" besteht) bei 3', '(eine Liste, die aus "a", "b" besteht) bei -2']),
+    "Text slice with crossed bounds": ("mit den Parametern t und i vom Typ Text und Zahl", "Der Text b ist t im Bereich von i bis 2.", ('Der Text b ist "".', "Speichere (t im Bereich von i bis 2) in b."),
+                                       '"abcdef" bei 1', ['"abcdef" bei 5', '"abcdef" bei 3']),
+    "Zahlen Liste slice with crossed bounds": ("mit den Parametern t und i vom Typ Zahlen Liste und Zahl", "Die Zahlen Liste b ist t im Bereich von i bis 2.", ("Die Zahlen Liste b ist eine leere Zahlen Liste.", "Speichere (t im Bereich von i bis 2) in b."),
+                                               "(eine Liste, die aus 1, 2, 3, 4 besteht) bei 2", ["(eine Liste, die aus 1, 2, 3, 4 besteht) bei 4"]),
+    "Variable cast to the wrong type": ("mit den Parametern t und i vom Typ Text und Zahl", "Die Zahl b ist v als Zahl.", ("Die Zahl b ist 0.", "Speichere (v als Zahl) in b."),
+                                        '"x" bei 1', ['"x" bei 0', '"x" bei 2']),
+}
+DEAD_FORMS = ("declaration", "assignment")
+DEAD_TEMPLATE = """Binde "Duden/Ausgabe" ein.
+
+Die Funktion Pruefe %s, gibt eine Zahl zurück, macht:
+%s	Gib i zurück.
+Und kann so benutzt werden:
+	"prüfe <t> bei <i>"
+
+Die Funktion Haupt gibt nichts zurück, macht:
+	Schreibe "vorher" auf eine Zeile.
+	Schreibe (prüfe %s) auf eine Zeile.
+	Schreibe "mitte" auf eine Zeile.
+	Schreibe (prüfe %s) auf eine Zeile.
+	Schreibe "nachher" auf eine Zeile.
+Und kann so benutzt werden:
+	"führe den Test aus"
+
+führe den Test aus.
+"""
+
+
+def dead_error_program(rng, op, form, bad):
+    params, decl, (d0, asg), good, _ = DEAD[op]
+    pre = ""
+    if op.startswith("Variable"):
+        pre = "\tDie Variable v ist t.\n\tWenn i gleich 1 ist, dann:\n\t\tSpeichere 7 in v.\n"
+    body = pre + ("\t" + decl + "\n" if form == "declaration" else "\t" + d0 + "\n\t" + asg + "\n")
+    return Source("dead-error", {"prog.ddp": DEAD_TEMPLATE % (params, body, good, bad)}, "prog.ddp", meta=dict(op=op, form=form, bad=bad))
+
+
+def src_dead(rng, n):
+    cells = [(op, f, b) for op in DEAD for f in DEAD_FORMS for b in DEAD[op][4]]
+    rng.shuffle(cells)
+    if n < len(cells):
+        pick, ops = [], set()
+        for c in cells:
+            if c[0] not in ops:
+                pick.append(c)
+                ops.add(c[0])
+        cells = pick + [c for c in cells if c not in pick]
+    return [dead_error_program(rng, *c) for c in cells[:n]]
+
+
 # ---- upstream goldens ----------------------------------------------------------------------------------------------------
 GOLDEN_SKIP = re.compile(r"Befehlszeilenargumente|Duden/(Regex|Komprimierung|Netzwerk|Uri|Eingabe|Zufall|Zeit|Dateisystem|UnterProzess|Umgebungsvariablen|Kryptographie|Befehlszeile|Laufzeit\b.*Arbeitsverzeichnis)")
 
@@ -724,6 +876,7 @@ class Runner:
         self.n = 0
         self.lock = threading.Lock()
         self.runs = 0
+        self.twice = True      # thorough: every executable twice; quick: only non-ok outcomes and the arith kind
 
     def materialise(self, s):
         if s.path:
@@ -743,7 +896,7 @@ class Runner:
         os.makedirs(d)
         return d
 
-    def run_level(self, s, opt, links=((True, True), (True, False), (False, True), (False, False)), asan=False):
+    def run_level(self, s, opt, links=((True, True), (True, False), (False, True), (False, False)), asan=False, twice=None):
         """{(opt, ml, ll): outcome} for one -O level; outcome = (class, stdout, detail) or ('build', stage, log)"""
         self.materialise(s)
         od = self.outdir()
@@ -772,7 +925,8 @@ class Runner:
                     res[cfg] = ("build", "closure", "the object references module init functions the import scan did not find: %s" % unk)
                     continue
             res[cfg] = self.run_exe(exe, s, asan)
-            if res[cfg][0] not in ("timeout",):
+            again_wanted = self.twice if twice is None else twice
+            if res[cfg][0] not in ("timeout",) and (again_wanted or s.kind == "arith" or res[cfg][0] != "ok"):
                 # a second run of the same executable: output that changes from run to run (values derived from addresses,
                 # i.e. LLVM undef/poison or reads of freed storage) is its own class
                 again = self.run_exe(exe, s, asan)
@@ -827,7 +981,10 @@ def analyse(R, levels=OPTS):
     # opt
     parts = {}
     for (ml, ll) in links:
-        p = partition(levels, lambda o: R[(o, ml, ll)])
+        lv = [o for o in levels if (o, ml, ll) in R]      # the quick tier runs a subset of the 12 configurations
+        if len(lv) < 2:
+            continue
+        p = partition(lv, lambda o: R[(o, ml, ll)])
         if "|" in p:
             parts.setdefault(p, []).append((ml, ll))
     for p, ls in sorted(parts.items()):
@@ -836,11 +993,11 @@ def analyse(R, levels=OPTS):
         bb = int(g[1].split("=")[0][1:])
         diffs.append(("opt", p, (a,) + ls[0], (bb,) + ls[0], [link_name(*l) for l in ls]))
     # modules
-    at = [(o, ll) for o in levels for ll in (True, False) if not same(R[(o, True, ll)], R[(o, False, ll)])]
+    at = [(o, ll) for o in levels for ll in (True, False) if (o, True, ll) in R and (o, False, ll) in R and not same(R[(o, True, ll)], R[(o, False, ll)])]
     if at:
         o, ll = at[0]
         diffs.append(("modules", "separate objects vs one LLVM module at " + ",".join(sorted({"O%d" % x[0] for x in at})), (o, True, ll), (o, False, ll), ["O%d/%s" % (x[0], "listdefs-linked" if x[1] else "listdefs-external") for x in at]))
-    at = [(o, ml) for o in levels for ml in (True, False) if not same(R[(o, ml, True)], R[(o, ml, False)])]
+    at = [(o, ml) for o in levels for ml in (True, False) if (o, ml, True) in R and (o, ml, False) in R and not same(R[(o, ml, True)], R[(o, ml, False)])]
     if at:
         o, ml = at[0]
         diffs.append(("listdefs", "external object vs linked in at " + ",".join(sorted({"O%d" % x[0] for x in at})), (o, ml, True), (o, ml, False), ["O%d/%s" % (x[0], "modules-linked" if x[1] else "modules-separate") for x in at]))
@@ -916,7 +1073,7 @@ def judge(rn, s, R):
         out.append(("%s: %s [%s]" % (dim, desc, s.label()), "%s gives %r, %s gives %r (%s)" % (cfg_name(ca), brief(R[ca])[:2], cfg_name(cb), brief(R[cb])[:2], where), replay(ca, cb, dict(where=where))))
     # (2) -O 2 against the lower levels, link mode by link mode (where O0 and O1 already differ, -O 2 only counts when it
     #     agrees with neither)
-    links = [(ml, ll) for ml in (True, False) for ll in (True, False)]
+    links = [(ml, ll) for ml in (True, False) for ll in (True, False) if all((o, ml, ll) in R for o in OPTS)]
     o2 = [l for l in links if same(R[(0,) + l], R[(1,) + l]) and not same(R[(2,) + l], R[(0,) + l])]
     o2x = [l for l in links if not same(R[(0,) + l], R[(1,) + l]) and not same(R[(2,) + l], R[(0,) + l]) and not same(R[(2,) + l], R[(1,) + l])]
     if o2x:
@@ -1015,6 +1172,7 @@ def shrink_prog(rn, s, key, budget=24):
 
 # ------------------------------------------------------------------------------------------------
 def main():
+    os.environ.setdefault("GOMAXPROCS", "2")     # 16 parallel kddp processes with 16 GC threads each thrash
     ck = Check(PID, "other")
     b = Build()
     ck.cov["trusted_base"] = vlib.TRUSTED_COMMON + [
@@ -1064,7 +1222,7 @@ def main():
         # at most two types per aliasing shape family, nine shape programs, a slice of the matrix
         per_shape, shp2 = {}, []
         for m, p in shp:
-            if per_shape.get(m["shape"], 0) < 2 and len(shp2) < 9:
+            if per_shape.get(m["shape"], 0) < 1 and len(shp2) < 9:
                 per_shape[m["shape"]] = per_shape.get(m["shape"], 0) + 1
                 shp2.append((m, p))
         # the matrix cells in which a non-primitive value is passed by value (the one place where -O 2 changes the
@@ -1075,8 +1233,8 @@ def main():
                 seen_mut.add(m["mutation"])
                 cells.append((m, p))
         cells += [x for x in mat if x[0]["construct"] == "return"][:1]
-        shp, mat = shp2[:8], cells[:6]
-    nrand = 5 if quick else 150
+        shp, mat = shp2[:3], cells[:3]
+    nrand = 2 if quick else 150
     g_all = c08gen.RandGen(rng)
     rnd = []
     while len(rnd) < nrand:
@@ -1086,18 +1244,21 @@ def main():
     for m, p in mat + shp + rnd:
         sources.append(src_c08(m, p))
     # (c1) the same kind of program cut into two files
-    nsplit = 5 if quick else 70
+    nsplit = 2 if quick else 70
     pool = shp + rnd + mat
     for m, p in [pool[i] for i in sorted(rng.sample(range(len(pool)), min(nsplit, len(pool))))]:
         sources.append(src_c08_split(m, p))
     # (b) Duden programs
-    sources += src_duden(rng, 6 if quick else 80)
+    sources += src_duden(rng, 3 if quick else 80)
     if not quick:
         sources += [Source("duden", {"prog.ddp": t}, "prog.ddp", meta=dict(template=i)) for i, t in DudenGen(rng).every_template()]
     # (c2) multi-module programs
-    sources += [multi_module(rng, i) for i in range(6 if quick else 60)]
+    sources += [multi_module(rng, i) for i in range(3 if quick else 60)]
     # (e) arithmetic whose LLVM instruction is undefined for the operands (and controls inside the domain)
-    sources += src_arith(rng, 6 if quick else 64, 3 if quick else 56)
+    sources += src_arith(rng, 5 if quick else 64, 1 if quick else 56)
+    # (f) a value parameter whose only write is a Referenz call nested in an argument of another call; (g) errors whose result is dead
+    sources += src_nested(rng, 5 if quick else 69)
+    sources += src_dead(rng, 6 if quick else 25)
     # (d) upstream goldens
     gold, gskipped = goldens(os.path.join(sc, "testdata"))
     if quick:
@@ -1105,24 +1266,32 @@ def main():
         multi = [g for g in gold if import_closure(g.path, b.dir) and any(not m.startswith(os.path.join(b.dir, "Duden")) for m in import_closure(g.path, b.dir))]
         rest = [g for g in gold if g not in multi]
         rng.shuffle(rest)
-        gold = multi[:4] + rest[:6]
+        gold = multi[:2] + rest[:2]
     else:
         gold_all = len(gold)
     sources += gold
     # ---------------- run: one job per (source, -O level)
     for s in sources:
         rn.materialise(s)
-    jobs = [(i, o) for i in range(len(sources)) for o in OPTS]
+    ALL_LINKS = ((True, True), (True, False), (False, True), (False, False))
+    rn.twice = not quick
+    if quick:
+        # 6 of the 12 configurations: the default link mode at every level, the three other link modes at one level
+        # (level 0 for the arith kind, where -O 0 is the level at which no LLVM pass runs; otherwise drawn per source)
+        side = [0 if s.kind == "arith" else rng.choice(OPTS) for s in sources]
+        jobs = [(i, o, ALL_LINKS if o == side[i] else ALL_LINKS[:1]) for i in range(len(sources)) for o in OPTS]
+    else:
+        jobs = [(i, o, ALL_LINKS) for i in range(len(sources)) for o in OPTS]
 
-    def job(io):
-        i, o = io
+    def job(iol):
+        i, o, links = iol
         try:
-            return rn.run_level(sources[i], o)
+            return rn.run_level(sources[i], o, links=links)
         except Exception as ex:
-            return {(o, ml, ll): ("build", "harness", repr(ex)) for ml in (True, False) for ll in (True, False)}
+            return {(o, ml, ll): ("build", "harness", repr(ex)) for ml, ll in links}
     results = vlib.pmap(job, jobs)
     per = {}
-    for (i, o), r in zip(jobs, results):
+    for (i, o, _), r in zip(jobs, results):
         per.setdefault(i, {}).update(r)
     # ---------------- judge
     by_kind, classes, keys, plain_keys = {}, {}, {}, {}
@@ -1165,9 +1334,9 @@ def main():
                     os.makedirs(cdir, exist_ok=True)
                     json.dump(dict(key=key, kind=small.kind, files=small.files, main=small.main), open(os.path.join(cdir, "v_%s.json" % hashlib.sha1(key.encode()).hexdigest()[:10]), "w"), ensure_ascii=False, indent=1)
     # ---------------- sanitizer flavour: the error class "sanitizer" at each -O level (default link mode)
-    asan_pool = [i for i, s in enumerate(sources) if s.kind in ("c08gen", "c08gen-split", "modules", "duden") and all(r[0] != "build" for r in per[i].values())]
+    asan_pool = [i for i, s in enumerate(sources) if s.kind in ("c08gen", "c08gen-split", "modules", "duden", "nested-call") and all(r[0] != "build" for r in per[i].values())]
     rng.shuffle(asan_pool)
-    asan_pool = asan_pool[: (6 if quick else 100)]
+    asan_pool = asan_pool[: (3 if quick else 100)]
     ajobs = [(i, o) for i in asan_pool for o in OPTS]
 
     def ajob(io):
@@ -1217,15 +1386,17 @@ def main():
     # ---------------- evidence
     nsrc = len(sources) - len(uncompilable)
     ck.cov.update(dict(
-        sources=nsrc, by_kind=by_kind, configurations=[cfg_name(c) for c in CONFIGS], executable_runs=rn.runs, outcome_classes=classes, sources_with_a_difference=n_diff_sources,
+        sources=nsrc, by_kind=by_kind, configurations=[cfg_name(c) for c in CONFIGS] if not quick else "6 per source: O0,O1,O2 x modules-linked/listdefs-linked, plus the 3 other link modes at one level (O0 for the arith kind, drawn per source otherwise); thorough: all 12", executable_runs=rn.runs, outcome_classes=classes, sources_with_a_difference=n_diff_sources,
         keys=keys, dropped=dropped, goldens_total=gold_all, goldens_used=sum(1 for s in sources if s.kind == "golden") - len(uncompilable), goldens_skipped=gskipped,
         goldens_not_compilable_in_this_sandbox=uncompilable, sanitizer_sources=len(asan_pool), sanitizer_level_differences=n_asan_diff, build_counters=rn.bu.cpu, recipes=recipe_text(b),
-        nondeterministic_in_every_configuration=nondet_everywhere, modules_separate_not_buildable=sep_unbuildable, raw_O0_separate_objects_link=raw_probe,
-        rule="evaluations = executable runs (source x configuration, each executable twice; plus sanitizer-flavour runs and attribution/shrink re-runs); distinct_nontrivial = distinct source texts that built and whose baseline run (O0, everything linked) printed something; every source prints the state it mutates",
+        error_messages_differing_only_in_trailing_bytes=TRAILING[0], nondeterministic_in_every_configuration=nondet_everywhere, modules_separate_not_buildable=sep_unbuildable, raw_O0_separate_objects_link=raw_probe,
+        rule="evaluations = executable runs (source x configuration; thorough: each executable twice, quick: a second run only for non-ok outcomes and the arith kind; plus sanitizer-flavour runs and attribution/shrink re-runs); distinct_nontrivial = distinct source texts that built and whose baseline run (O0, everything linked) printed something; every source prints the state it mutates",
         distribution="(a) c08gen: construct x mutation x type matrix, aliasing shapes, random programs (2-4 globals, 1-3 functions, value/Referenz parameters, aliasing bias 0.5-0.6), without the programs whose reference run flags D; "
                      "(b) straight-line programs of 12-28 statements drawn uniformly from %d call templates over Duden/Listen, Texte, Mathe, Zahlen with random literals (thorough: plus one program per template); "
                      "(c) c08gen programs cut into main + module, and main + 2 own modules (public Kombination, globals, functions with Referenz parameters; selective or whole import; second module importing the first in half of them); "
                      "(d) upstream goldens of tests/testdata/{kddp,stdlib}; "
+                     "(f) nested-call: a Text/Zahlen Liste/Text Liste value parameter whose only write is a Referenz call standing inside an argument of another call (6 nesting forms x 3-4 write forms), called with a local variable that is printed afterwards; "
+                     "(g) dead-error: Text/list indexing out of range, slices with crossed bounds, a Variable cast to the wrong type, inside a function, the result in an unused local (declaration or assignment), prints before and after; "
                      "(e) one arithmetic operation per program whose LLVM instruction (srem, shl, lshr, fptosi) is undefined or poison for the operands, operands as literals / globals / parameters / list elements, and the same operations inside their domain as controls"
                      % len(DudenGen(rng).templates()),
         excluded="c08gen programs whose value-semantics reference run flags D (a Referenz to a part of a variable whose container the callee replaces): undefined at every level (a C08 finding), they crash nondeterministically; programs flagged S (assignment of a variable to itself through aliases) are included since /repo commit 6711de1 made that defined; goldens that read stdin/argv/clock/random/file system/environment or need pcre2/libarchive"))
